@@ -482,6 +482,10 @@ def rules(rep, facts):
         rep.relabel('C14/R1', 'C15/R5', 'the spans errors are located with exist and are well-formed: ')
         r6_depth_cause(rep, facts)
         r7_nonempty_message(rep, facts)
+        # an error raised while decoding an editable document (no source text) is located by key path only: every span was dropped by despan
+        from .rules_c14 import r2_despan
+        r2_despan(rep, facts)
+        rep.relabel('C14/R2', 'C15/R8', 'errors from a document without source text carry no stale range: ')
 
 
 def run(tier):
